@@ -719,6 +719,10 @@ def _create_relabel_map(array, start_label=1):
     """
     labels = _get_labels(array)
 
+    # no labels (e.g., all labels were removed from the input image)
+    if len(labels) == 0:
+        return None
+
     # check if the labels are already consecutive starting from
     # start_label
     if (labels[0] == start_label
